@@ -38,6 +38,16 @@ func c15DefaultOpts(c *c15Case) bool { return c.Off == 0 && c.Mx == 6 && !c.Meta
 
 func c15ModelTable(el *c15El) *model.Table {
 	t := model.NewTable(el.Nr, el.Nc)
+	defer func() {
+		// a ragged table: every row keeps only the cells it has
+		for r := 0; r < el.Nr; r++ {
+			n := el.Nc
+			for n > 0 && el.Src[r][n-1].Absent {
+				n--
+			}
+			t.Rows[r] = t.Rows[r][:n]
+		}
+	}()
 	for r := 0; r < el.Nr; r++ {
 		for cc := 0; cc < el.Nc; cc++ {
 			s := el.Src[r][cc]
@@ -214,7 +224,7 @@ func c15HTMLTable(el *c15El, b *strings.Builder, variant int) {
 			b.WriteString("<tr>")
 			for cc := 0; cc < el.Nc; cc++ {
 				s := el.Src[r][cc]
-				if s.Covered {
+				if s.Covered || s.Absent {
 					continue
 				}
 				attr := ""
